@@ -145,6 +145,8 @@ def obj_body(b, mname):
     k = b["k"]
     if k == "const":
         return str(b["n"])
+    if k == "bomb":
+        return "error 'bomb'"
     if k == "self":
         return f"self.{b['g']}"
     if k == "dollar":
